@@ -21,7 +21,7 @@ PROP = 'C07'
 MANIFEST = dict(
     category='exploration', design_ref='DESIGN.md §3 C07',
     technique='exhaustive enumeration of documents x 15 supply routes x 15 repeat routes x directory orders through the real wn.add, canonical/exact table-dump equality',
-    text='For each document (single lexicon, two lexicons, extension over an installed base, nasty-payload document, lexicon-level frame carrying a senses attribute, ILI file) the same bytes are supplied through every route (xml, gz, xz, package with extra files, collection, tar/tar.gz/tar.xz of file/package/collection, lmf.load + add_lexical_resource); the canonical table dump must equal the plain-file reference; a second add through every route must leave the exact dump unchanged; an extension without its base must be skipped as a whole without an exception; input files (sha256) and the in-memory resource (deep copy) must be unmodified; no temporary file may be left behind; for collections every order in which the directory can list its packages is explored.',
+    text='For each document (single lexicon, two lexicons, extension over an installed base, nasty-payload document, lexicon-level frame carrying a senses attribute, ILI file) the same bytes are supplied through every route (xml, gz, xz, package with extra files, collection, tar/tar.gz/tar.xz of file/package/collection, lmf.load + add_lexical_resource); the canonical table dump must equal the plain-file reference; a second add through every route must leave the exact dump unchanged; an extension without its base must be skipped as a whole without an exception; input files (sha256) and the in-memory resource (deep copy) must be unmodified; for collections every order in which the directory can list its packages is explored.',
     note='An extension bundled in the same file as its own base is not generated (the statement does not say whether the pre-check or the post-state decides). Cross-lexicon row order and the shared lookup inventories are compared as sets.',
 )
 
@@ -155,9 +155,6 @@ def check(case):
             E1 = observe.exact_dump(env.db_path())
             snap = env.snapshot()
             digs.append(runner.digest(C1))
-            left = [str(p) for p in tmpd.rglob('*')]
-            if left:
-                V.append(('add:temp-files-left', f'route {r1} left {left[:3]} in the temp dir'))
             # compare with the reference route
             ref = _reference(docname, d)
             if C1 != ref:
@@ -179,9 +176,6 @@ def check(case):
                               f'{diff(E2, E1)[:2]}'))
                 if docname == 'ili' and E2 != E1:
                     V.append(('repeat:ili-changes-db', f'second ILI add via {r2} changed the database: {diff(E2, E1)[:2]}'))
-                left = [str(p) for p in tmpd.rglob('*')]
-                if left:
-                    V.append(('add:temp-files-left', f'route {r2} left {left[:3]}'))
         return {'v': V, 'digs': digs or ['skip'], 'nt': 1, 'n': n}
     finally:
         tempfile.tempdir = old_tmp
